@@ -532,6 +532,7 @@ def run_props(ctx, out):
               (3, [("ResponseTopic", "\u20ac" * 21845), ("CorrelationData", b"\x01" * 65535)]),
               (3, [("CorrelationData", b"\x01" * 65536)]), (3, [("ContentType", "\u20ac" * 21846)]),
               (15, [("UserProperty", ("k" * 65535, "\U0001F600" * 16383)), ("AuthenticationData", b"")])]
+    stored += corpus_cases()
     results = {}
     for label, cs in (("corpus", stored), ("grid", grid), ("valid", valid), ("near", near), ("wild", wild)):
         results[label] = check_props(ctx, out, cs, label)
@@ -808,15 +809,26 @@ def replay(payload):
     return True, {"note": "nothing to replay for this kind"}
 
 
+# open findings: signature -> witness.  F-C17a..e are repaired in /repo; their witnesses live on in
+# corpus/C17/*.json and are replayed on every run as regression cases (they must PASS).
 WITNESS = {
-    "F-C17b-maxpacketsize-range": (1, [("MaximumPacketSize", 268435456)]),
-    "F-C17c-list-skips-range-check": (8, [("SubscriptionIdentifier", [0])]),
-    "F-C17d-feff-rejected-on-unpack": (3, [("UserProperty", ("\ufeff", "x"))]),
-    "F-C17e-connack-flag-range": (2, [("MaximumQoS", 2)]),
     "F-C17f-string-content-unchecked": (3, [("ContentType", "a\x00b")]),
     "F-C17g-subid-repeated-in-subscribe": (8, [("SubscriptionIdentifier", [1, 2])]),
     "F-C17h-userproperty-str-indexed": (3, [("UserProperty", "abc")]),
 }
+
+
+def corpus_cases():
+    import glob, json, os
+    out = []
+    for path in sorted(glob.glob(os.path.join(os.path.dirname(os.path.dirname(os.path.abspath(__file__))), "corpus", "C17", "*.json"))):
+        try:
+            case = json.load(open(path)).get("case", {})
+        except Exception:
+            continue
+        if case.get("kind") == "props":
+            out.append((case["pt"], [(n, unjv(a)) for n, a in case["assigns"]]))
+    return out
 
 
 def finding_still_fails(f):
